@@ -23,7 +23,8 @@
 (* World:                                                                  *)
 (*   inst[s]  snap s is in the "snaps" state                               *)
 (*   rec[s]   [dis |-> AutoAliasesDisabled, pend |-> AliasesPending,       *)
-(*             al |-> alias name -> [m |-> Manual, a |-> Auto]]  ("" = no) *)
+(*             al |-> alias name -> [m |-> Manual, a |-> Auto]   ("" = no) *)
+(*             act |-> Active]                                             *)
 (*   sys[n]   what alias n is on the system: [s |-> snap, a |-> app]       *)
 (*   decl[s]  auto-aliases of the current snap-declaration of s            *)
 (* History: pre (world when the running change was requested), mon (the    *)
@@ -40,13 +41,14 @@ CONSTANTS Snaps,        \* snap instance names (strings); the op-fault indexing 
           FaultModes,   \* subset of {"entry", "op1", "op2"}
           InitInst,     \* snaps installed initially (no aliases)
           RAAUX,        \* experimental refresh-app-awareness(-ux): remove-aliases is skipped on refresh
+          LateRemoveFaults, \* explore faults at discard-snap, i.e. after clear-snap removed the snap's data (finding F2)
           MaxOps        \* bound on requests per history (0 = unbounded)
 
 None     == ""
 NoEnt    == [m |-> None, a |-> None]
 NoTgt    == [s |-> None, a |-> None]
 EmptyAl  == [n \in Names |-> NoEnt]
-EmptyRec == [dis |-> FALSE, pend |-> FALSE, al |-> EmptyAl]
+EmptyRec == [dis |-> FALSE, pend |-> FALSE, al |-> EmptyAl, act |-> FALSE]
 NoDecl   == [n \in Names |-> None]
 
 VARIABLES inst, rec, sys, decl, chg, pre, mon, nops
@@ -182,7 +184,7 @@ DoSetAuto(t, W, D) ==
         dis1 == IF flg THEN TRUE ELSE cur.dis
         new  == RefreshAl(D[t.s], cur.al)
     IN  IF CheckConfl(W, t.s, dis1, new, NoChanging) THEN Bad(W)
-        ELSE Ok([W EXCEPT !.rec[t.s] = [dis |-> dis1, pend |-> TRUE, al |-> new]],
+        ELSE Ok([W EXCEPT !.rec[t.s] = [cur EXCEPT !.dis = dis1, !.pend = TRUE, !.al = new]],
                 [SavedAl(cur.al) EXCEPT !.hasDis = flg, !.oldDis = cur.dis, !.prune = ~cur.pend])
 
 SkipRemove(t) == RAAUX /\ t.flag = "refresh"
@@ -202,7 +204,8 @@ DoSetup(t, W, C) ==
     IN  Ok([Apply(W, t.s, oDis, oAl, cur.dis, cur.al) EXCEPT !.rec[t.s].pend = FALSE],
            [NoSaved EXCEPT !.pruned = prune])
 
-DoLink(t, W)    == Ok([W EXCEPT !.inst[t.s] = TRUE, !.rec[t.s] = EmptyRec], NoSaved)      \* link-snap of an install
+DoLink(t, W)    == Ok([W EXCEPT !.inst[t.s] = TRUE, !.rec[t.s] = [EmptyRec EXCEPT !.act = TRUE]], NoSaved)  \* link-snap of an install
+DoUnlink(t, W)  == Ok([W EXCEPT !.rec[t.s].act = FALSE], NoSaved)                          \* unlink-snap of a remove
 DoDiscard(t, W) == Ok([W EXCEPT !.inst[t.s] = FALSE, !.rec[t.s] = EmptyRec], NoSaved)     \* discard-snap (last revision)
 
 DoTask(t, W, D, C) ==
@@ -216,6 +219,7 @@ DoTask(t, W, D, C) ==
       [] t.k = "remove-aliases"     -> DoRemoveAliases(t, W)
       [] t.k = "setup-aliases"      -> DoSetup(t, W, C)
       [] t.k = "link-snap"          -> DoLink(t, W)
+      [] t.k = "unlink-snap"        -> DoUnlink(t, W)
       [] t.k = "discard-snap"       -> DoDiscard(t, W)
       [] OTHER                      -> Ok(W, NoSaved)
 
@@ -253,7 +257,7 @@ UndoGeneric(t, sv, W) ==
         dis1  == IF confl THEN TRUE ELSE dis0
         pend1 == IF cur.pend /\ t.k = "set-auto-aliases" /\ sv.prune THEN FALSE ELSE cur.pend
         W1    == IF ~pend1 THEN Apply(W, s, cur.dis, cur.al, dis1, oldAl) ELSE W
-        newS  == [dis |-> dis1, pend |-> pend1, al |-> oldAl]
+        newS  == [cur EXCEPT !.dis = dis1, !.pend = pend1, !.al = oldAl]
         ch    == [on |-> [o \in Snaps |-> o = s], rec |-> [o \in Snaps |-> newS]]
         os    == {o \in Snaps : sv.others[o].on}
         oDis(o) == IF sv.others[o].auto THEN FALSE ELSE W.rec[o].dis
@@ -279,12 +283,17 @@ UndoRemoveAliases(t, W) ==
     IN  IF ~cur.pend THEN W
         ELSE [Apply(W, t.s, TRUE, EmptyAl, cur.dis, cur.al) EXCEPT !.rec[t.s].pend = FALSE]
 
-UndoTask(t, sv, W) ==
+\* undoUnlinkSnap: "a later clear-snap task could have been executed and some or all of the data of this snap could
+\* be lost. If that's the case, then we should not enable the snap back"
+ClearRan(C, s) == \E j \in 1..Len(C.tasks) : C.tasks[j].k = "clear-snap" /\ C.tasks[j].s = s /\ C.status[j] \in {"done", "undo", "undone"}
+
+UndoTask(t, sv, W, C) ==
     CASE t.k \in {"alias", "unalias", "disable-aliases", "prefer-aliases", "refresh-aliases", "prune-auto-aliases",
                   "set-auto-aliases"}  -> UndoGeneric(t, sv, W)
       [] t.k = "setup-aliases"         -> UndoSetup(t, sv, W)
       [] t.k = "remove-aliases"        -> UndoRemoveAliases(t, W)
       [] t.k = "link-snap"             -> [W EXCEPT !.inst[t.s] = FALSE, !.rec[t.s] = EmptyRec]
+      [] t.k = "unlink-snap"           -> [W EXCEPT !.rec[t.s].act = ~ClearRan(C, t.s)]
       [] OTHER                         -> W
 
 (***************************************************************************)
@@ -305,7 +314,8 @@ PruneTasks(W, D, S) ==
 
 \* request refused at the entry point (nothing is created)
 Refused(op, W, D) ==
-    CASE op.kind \in {"alias", "disable", "prefer", "refresh", "remove"} -> ~W.inst[op.s]
+    CASE op.kind \in {"alias", "disable", "prefer", "remove"} -> ~W.inst[op.s]
+      [] op.kind = "refresh" -> ~W.inst[op.s] \/ ~W.rec[op.s].act          \* "refreshing disabled snap not supported"
       [] op.kind = "unalias" -> ~\E s \in Snaps : W.inst[s] /\ W.rec[s].al[op.n].m # None
       [] op.kind = "install" -> W.inst[op.s] \/ SnapNameTaken(W, op.s)
       [] op.kind = "refreshdecl" -> \A s \in Snaps : Changed(W, D, s) = {} /\ Dropped(W, D, s) = {}
@@ -321,8 +331,11 @@ Chains(op, W, D) ==
       [] op.kind = "install" ->
             {Linear(IF op.flag = "prefer"
                     THEN <<"link-snap", "set-auto-aliases", "setup-aliases", "prefer-aliases", "nop">>
-                    ELSE <<"link-snap", "set-auto-aliases", "setup-aliases", "nop">>, op.s, 1, 0, {}, op.flag)}
-      [] op.kind = "remove"  -> {Linear(<<"remove-aliases", "nop", "discard-snap">>, op.s, 0, 0, {}, "remove")}
+                    ELSE <<"link-snap", "set-auto-aliases", "setup-aliases", "nop">>, op.s, 0, 0, {}, op.flag)}
+      [] op.kind = "remove"  ->
+            \* removeTasks: remove-aliases and unlink-snap only for an active snap
+            {Linear(IF W.rec[op.s].act THEN <<"remove-aliases", "unlink-snap", "clear-snap", "discard-snap">>
+                                       ELSE <<"clear-snap", "discard-snap">>, op.s, 0, 0, {}, "remove")}
       [] op.kind = "refresh" ->
             \* autoAliasesUpdate with requested = {op.s}: sources of aliases transferred to op.s are pruned first
             LET src == {o \in Snaps \ {op.s} : Dropped(W, D, o) \cap Changed(W, D, op.s) # {}}
@@ -385,7 +398,7 @@ StepDo(C, i, W, D) ==
         ELSE [how |-> "done", W |-> r.W, C |-> [C EXCEPT !.status[i] = "done", !.saved[i] = r.sv]]
 
 StepUndo(C, i, W) ==
-    [W |-> UndoTask(C.tasks[i], C.saved[i], W), C |-> [C EXCEPT !.status[i] = "undone"]]
+    [W |-> UndoTask(C.tasks[i], C.saved[i], W, C), C |-> [C EXCEPT !.status[i] = "undone"]]
 
 NewChange(op, tasks, fault) ==
     [kind |-> op.kind, tasks |-> tasks, status |-> [i \in 1..Len(tasks) |-> "do"],
@@ -438,7 +451,7 @@ Ops == {op \in AllOps : op.kind \in OpKinds}
 
 Init ==
     /\ inst = [s \in Snaps |-> s \in InitInst]
-    /\ rec  = [s \in Snaps |-> EmptyRec]
+    /\ rec  = [s \in Snaps |-> [EmptyRec EXCEPT !.act = s \in InitInst]]
     /\ sys  = [n \in Names |-> NoTgt]
     /\ decl = [s \in Snaps |-> NoDecl]
     /\ chg  = Idle
@@ -464,7 +477,8 @@ RequestRefused(op) ==
 Request(op) ==
     /\ IsIdle /\ Budget /\ ~Refused(op, CurW, decl)
     /\ \E tasks \in Chains(op, CurW, decl) :
-       \E f \in {NoFault} \cup {[idx |-> i, mode |-> m] : i \in 1..Len(tasks), m \in FaultModes} :
+       \E f \in {NoFault} \cup {[idx |-> i, mode |-> m] :
+                                i \in {j \in 1..Len(tasks) : LateRemoveFaults \/ tasks[j].k # "discard-snap"}, m \in FaultModes} :
             chg' = NewChange(op, tasks, f)
     /\ pre' = CurW
     /\ mon' = MonOK
@@ -518,8 +532,8 @@ Implied(n) == {[s |-> s, a |-> Eff(rec[s].al[n], rec[s].dis)] :
 SysMatchesState ==
     IsIdle => \A n \in Names : IF sys[n] = NoTgt THEN Implied(n) = {} ELSE Implied(n) = {sys[n]}
 
-\* AliasesPending ("aliases in internal state and on disk might not match") is never left set on an (active) snap
-NoPendingWhenSettled == IsIdle => \A s \in Snaps : inst[s] => ~rec[s].pend
+\* AliasesPending ("aliases in internal state and on disk might not match") is never left set on an active snap
+NoPendingWhenSettled == IsIdle => \A s \in Snaps : (inst[s] /\ rec[s].act) => ~rec[s].pend
 
 \* (b) no alias name is ever enabled for two snaps at once (every state, also while a change runs)
 NoDoubleAlias ==
@@ -540,6 +554,7 @@ FailedChangeRestores          == mon.d
 MCSnaps      == {"s1", "s2"}
 MCNames2     == {"x", "y"}
 MCNames3     == {"x", "y", "s2"}
+MCNamesNs    == {"x", "s2"}
 MCApps       == {"c1", "c2"}
 MCAuto1      == {"c1"}
 MCAuto2      == {"c1", "c2"}
@@ -549,6 +564,14 @@ MCFlagsPlain == {"plain"}
 MCFaults     == {"entry", "op1", "op2"}
 MCFaultsAtomic == {"entry", "op1"}
 MCNoFaults   == {}
+MCFaultsEntry == {"entry"}
+MCFaultsOp2  == {"op2"}
+MCFlagsPrefer == {"prefer"}
+MCKindsNs    == {"alias", "unalias", "prefer", "install", "remove"}
+MCKindsOp2   == {"alias", "install"}
+MCKindsF2    == {"alias", "remove"}
+MCKindsTiny  == {"alias", "prefer", "disable"}
+MCKindsRaaux == {"alias", "disable", "prefer", "refresh", "refreshdecl"}
 MCBoth       == {"s1", "s2"}
 MCOne        == {"s1"}
 MCNone       == {}
